@@ -82,6 +82,9 @@ def blocks (szHash szRec : Nat) (v : Version) : Nat → List Nat → List Nat
       | (a, none) => a
       | (a, some rest) => a ++ blocks szHash szRec v fuel rest
 
+def blocksAll (szHash szRec : Nat) (v : Version) (bs : List Nat) : List Nat :=
+  blocks szHash szRec v (bs.length + 1) bs
+
 /-- the `vec![0u8; skip]` of an extended header larger than 20 bytes (header size < 100). -/
 def hdrAllocs : Header → List Nat
   | .classic .. => []
@@ -93,12 +96,12 @@ complete C03 model `RootFile.parse`, which the driver uses for the ok/err predic
 def front (szHash szRec : Nat) (bs : List Nat) : Front :=
   match detect bs with
   | none => .error
-  | some .v1 => { verdict := .pass, allocs := blocks szHash szRec .v1 (bs.length + 1) bs }
+  | some .v1 => { verdict := .pass, allocs := blocksAll szHash szRec .v1 bs }
   | some _ =>
     match Header.read bs with
     | none => .error
     | some (h, rest) =>
-      { verdict := .pass, allocs := hdrAllocs h ++ blocks szHash szRec h.version (rest.length + 1) rest }
+      { verdict := .pass, allocs := hdrAllocs h ++ blocksAll szHash szRec h.version rest }
 
 end Root
 
@@ -112,63 +115,69 @@ def be16 (b : List Nat) (i : Nat) : Nat := b.getD i 0 * 256 + b.getD (i + 1) 0
 def be32 (b : List Nat) (i : Nat) : Nat :=
   b.getD i 0 * 16777216 + b.getD (i + 1) 0 * 65536 + b.getD (i + 2) 0 * 256 + b.getD (i + 3) 0
 
+/-- one loop iteration of `parse_directory` up to and including the NodeValue: optional leading
+separator, the name-fragment loop (C03's `parseFrags`), the 0xFF marker, the big-endian value.
+Returns the value and the bytes after it; `none` = `PathTableTruncated` / `InvalidPathNode`. -/
+def entry (fuel : Nat) (bs : List Nat) : Option (Nat × List Nat) :=
+  match bs with
+  | [] => none
+  | b0 :: rest0 =>
+    let bs1 := if b0 = 0 then rest0 else bs
+    match parseFrags (fuel + 1) bs1 [] with                          -- fuel ≥ bs.length (see `front`)
+    | .error _ => none
+    | .ok (_, bs2) =>
+      match bs2 with
+      | 0xFF :: v0 :: v1 :: v2 :: v3 :: bs3 => some (16777216 * v0 + 65536 * v1 + 256 * v2 + v3, bs3)
+      | _ => none
+
 /-- `parse_directory(data, start..end, depth = d)` on the bytes of the range: did it succeed, and
 the deepest `depth` argument of any call made (the call that refuses counts). One entry per loop
-iteration; the name-fragment loop is C03's `parseFrags`. -/
+iteration. -/
 def dir : Nat → Nat → List Nat → Bool × Nat
   | 0, d, _ => (false, d)
   | fuel + 1, d, bs =>
     if maxPathDepth < d then (false, d)                              -- fix 64c1c0f
+    else if bs.isEmpty then (true, d)
     else
-      match bs with
-      | [] => (true, d)
-      | b0 :: rest0 =>
-        let bs1 := if b0 = 0 then rest0 else bs
-        match parseFrags (fuel + 1) bs1 [] with                     -- fuel ≥ bs.length (see `front`)
-        | .error _ => (false, d)
-        | .ok (_, bs2) =>
-          match bs2 with
-          | 0xFF :: v0 :: v1 :: v2 :: v3 :: bs3 =>
-            let value := 16777216 * v0 + 65536 * v1 + 256 * v2 + v3
-            if value ≥ 0x80000000 then
-              let len := value % 0x80000000
-              if len < 4 then (false, d)
-              else if (bs3.take (len - 4)).length < len - 4 then (false, d)   -- children_end > end
-              else
-                let (ok, m) := dir fuel (d + 1) (bs3.take (len - 4))
-                if !ok then (false, m)
-                else
-                  let (ok', m') := dir fuel d (bs3.drop (len - 4))
-                  (ok', max m m')
-            else dir fuel d bs3
-          | _ => (false, d)
+      match entry fuel bs with
+      | none => (false, d)
+      | some (value, bs3) =>
+        if value ≥ 0x80000000 then
+          let len := value % 0x80000000
+          -- folder_data_len < 4, children_end > end
+          if len < 4 ∨ (bs3.take (len - 4)).length < len - 4 then (false, d)
+          else
+            let r1 := dir fuel (d + 1) (bs3.take (len - 4))
+            if !r1.1 then (false, r1.2)
+            else
+              let r2 := dir fuel d (bs3.drop (len - 4))
+              (r2.1, max r1.2 r2.2)
+        else dir fuel d bs3
+
+/-- `PathTable::parse`: `parse_directory(data, 0, len, depth = 0)`. -/
+def walk (path : List Nat) : Bool × Nat := dir (path.length + 1) 0 path
+
+/-- result of the front end from the path-table walk: `data.to_vec()` (ps bytes) is made when the
+walk succeeds. -/
+def mk (ps : Nat) (r : Bool × Nat) : Front :=
+  { verdict := if r.1 then .pass else .err, allocs := if r.1 then [ps] else [], depth := r.2 }
+
+def hdrOk (b : List Nat) : Bool :=
+  let est := be32 b 8 / 2 % 2 == 1
+  decide (4 ≤ b.length) && b.take 4 == [0x54, 0x56, 0x46, 0x53]      -- "TVFS"
+    && decide (38 ≤ b.length) && (!est || decide (46 ≤ b.length))
+    && b.getD 4 0 == 1 && b.getD 5 0 == (if est then 46 else 38)
+    && b.getD 6 0 == 9 && b.getD 7 0 == 9
 
 /-- `TvfsFile::parse` front: header (38 bytes; 46 with the encoding-spec flag), `validate`, the
 range checks of the three tables, `PathTable::parse` (then `data.to_vec()`). The VFS / container
 tables are bodies. `allocs`: the path-table copy (made when the walk succeeds). -/
 def front (b : List Nat) : Front :=
-  if b.length < 4 then .error
-  else if b.take 4 ≠ [0x54, 0x56, 0x46, 0x53] then .error           -- "TVFS"
-  else if b.length < 38 then .error
+  if !hdrOk b then .error
+  else if b.length < be32 b 12 + be32 b 16 then .error               -- path table range
+  else if b.length < be32 b 20 + be32 b 24 ∨ b.length < be32 b 28 + be32 b 32 then .error
   else
-    let flags := be32 b 8
-    let est := flags / 2 % 2 = 1
-    if est ∧ b.length < 46 then .error
-    else if b.getD 4 0 ≠ 1 then .error
-    else if b.getD 5 0 ≠ (if est then 46 else 38) then .error
-    else if b.getD 6 0 ≠ 9 ∨ b.getD 7 0 ≠ 9 then .error
-    else
-      let po := be32 b 12; let ps := be32 b 16
-      let vo := be32 b 20; let vs := be32 b 24
-      let co := be32 b 28; let cs := be32 b 32
-      if b.length < po + ps then .error
-      else if b.length < vo + vs then .error
-      else if b.length < co + cs then .error
-      else
-        let path := (b.drop po).take ps
-        let (ok, m) := dir (path.length + 1) 0 path
-        if ok then { verdict := .pass, allocs := [ps], depth := m }
-        else { verdict := .err, depth := m }
+    mk (be32 b 16) (walk ((b.drop (be32 b 12)).take (be32 b 16)))
 
 end TvfsB
 
@@ -193,45 +202,36 @@ def blockTable (fks : Nat) : Nat → List Nat → Verdict
 /-- header (10 bytes, magic asserted by binrw), `validate`, optional encoding info
 (`vec![0; espec_length]`, a u8), block table (`Vec::with_capacity(block_count)`, a u16). The block
 data walk (seek to each block's offset, entries until the 0 sentinel) is the body. -/
+def hdrOk (b : List Nat) : Bool :=
+  decide (10 ≤ b.length) && b.take 2 == [0x50, 0x41]                 -- "PA"
+    && decide (1 ≤ b.getD 2 0 ∧ b.getD 2 0 ≤ 2)
+    && decide (1 ≤ b.getD 4 0 ∧ b.getD 4 0 ≤ 16) && decide (1 ≤ b.getD 5 0 ∧ b.getD 5 0 ≤ 16)
+    && decide (12 ≤ b.getD 6 0 ∧ b.getD 6 0 ≤ 24)
+
+/-- `parse_encoding_info`: two keys, two u32, the espec length byte, `vec![0; espec_length]`. -/
+def encInfo (fks : Nat) (rest : List Nat) : Verdict × List Nat × List Nat :=
+  match readKey fks rest with
+  | .panic => (.panic, [], [])
+  | .eof => (.err, [], [])
+  | .ok r1 =>
+    match readKey fks r1 with
+    | .panic => (.panic, [], [])
+    | .eof => (.err, [], [])
+    | .ok r2 =>
+      if r2.length < 9 then (.err, [], [])
+      else if (r2.drop 9).length < r2.getD 8 0 then (.err, [r2.getD 8 0 % 256], [])
+      else (.pass, [r2.getD 8 0 % 256], (r2.drop 9).drop (r2.getD 8 0))
+
 def front (szBlock : Nat) (b : List Nat) : Front :=
-  if b.length < 2 then .error
-  else if b.take 2 ≠ [0x50, 0x41] then .error                        -- "PA"
-  else if b.length < 10 then .error
+  if !hdrOk b then .error
+  else if b.getD 3 0 = 0 ∨ 16 < b.getD 3 0 then .error               -- file_key_size (validate)
   else
-    let version := b.getD 2 0
     let fks := b.getD 3 0
-    let oks := b.getD 4 0
-    let pks := b.getD 5 0
-    let bits := b.getD 6 0
-    let bc := b.getD 7 0 * 256 + b.getD 8 0
-    let flags := b.getD 9 0
-    if version = 0 ∨ 2 < version then .error
-    else if fks = 0 ∨ 16 < fks ∨ oks = 0 ∨ 16 < oks ∨ pks = 0 ∨ 16 < pks then .error
-    else if bits < 12 ∨ 24 < bits then .error
-    else
-      let rest := b.drop 10
-      -- extended header
-      let ext : Option (Verdict × List Nat × List Nat) :=
-        if flags / 2 % 2 = 1 then
-          match readKey fks rest with
-          | .panic => some (.panic, [], [])
-          | .eof => none
-          | .ok r1 =>
-            match readKey fks r1 with
-            | .panic => some (.panic, [], [])
-            | .eof => none
-            | .ok r2 =>
-              if r2.length < 9 then none
-              else
-                let el := r2.getD 8 0
-                if (r2.drop 9).length < el then some (.err, [el], [])
-                else some (.pass, [el], (r2.drop 9).drop el)
-        else some (.pass, [], rest)
-      match ext with
-      | none => .error
-      | some (.pass, a, r) =>
-        { verdict := blockTable fks bc r, allocs := a ++ [bc * szBlock] }
-      | some (v, a, _) => { verdict := v, allocs := a }
+    let bc := (b.getD 7 0 * 256 + b.getD 8 0) % 65536
+    let e := if b.getD 9 0 / 2 % 2 = 1 then encInfo fks (b.drop 10) else (.pass, [], b.drop 10)
+    match e.1 with
+    | .pass => { verdict := blockTable fks bc e.2.2, allocs := e.2.1 ++ [bc * szBlock] }
+    | v => { verdict := v, allocs := e.2.1 }
 
 end PArch
 
@@ -424,8 +424,8 @@ def go : Nat → Mode → Nat → Str → Option Str × Nat
         match encPrefix r with
         | none => (none, d + 1)
         | some r1 =>
-          let (o, m) := go fuel .spec (d + 1) r1
-          (o.bind (consume '}'), max (d + 1) m)
+          let x := go fuel .spec (d + 1) r1
+          (x.1.bind (consume '}'), max (d + 1) x.2)
       | 'b' :: r =>
         match consume ':' r with
         | none => (none, d + 1)
@@ -433,31 +433,31 @@ def go : Nat → Mode → Nat → Str → Option Str × Nat
           match blockHead r1 with
           | .err => (none, d + 1)
           | .single r2 =>
-            let (o, m) := go fuel .spec (d + 1) r2
-            (o, max (d + 1) m)
+            let x := go fuel .spec (d + 1) r2
+            (x.1, max (d + 1) x.2)
           | .braces r2 =>
-            let (o, m) := go fuel (.loop 0) (d + 1) r2
-            (o.bind (consume '}'), max (d + 1) m)
+            let x := go fuel (.loop 0) (d + 1) r2
+            (x.1.bind (consume '}'), max (d + 1) x.2)
       | _ => (none, d + 1)
   | fuel + 1, .loop vc, d, s =>
     match chunkHead vc s with
     | none => (none, d)
     | some (vc', r) =>
-      let (o, m) := go fuel .spec d r
-      match o with
-      | none => (none, m)
-      | some r1 =>
-        match r1 with
-        | ',' :: r2 =>
-          let (o2, m2) := go fuel (.loop vc') d r2
-          (o2, max m m2)
-        | _ => (some r1, m)
+      let x := go fuel .spec d r
+      match x.1 with
+      | some (',' :: r2) =>
+        let y := go fuel (.loop vc') d r2
+        (y.1, max x.2 y.2)
+      | o => (o, x.2)
+
+/-- the top-level `parse_espec` call (`self.depth = 0`). -/
+def top (s : Str) : Option Str × Nat := go (2 * s.length + 2) .spec 0 s
 
 /-- `Parser::parse`: accepted?, deepest `parse_espec` frame. -/
 def parse (s : Str) : Bool × Nat :=
   if s.isEmpty then (false, 0)
   else
-    match go (2 * s.length + 2) .spec 0 s with
+    match top s with
     | (some [], m) => (true, m)
     | (_, m) => (false, m)
 
